@@ -502,37 +502,23 @@ impl<'a> From<Piece<'a>> for Chunk {
                     }
 
                     let key = match formatter.args.first() {
-                        Some(arg) => {
-                            if let Some(arg) = arg.first() {
-                                match arg {
-                                    Piece::Text(key) => key.to_owned(),
-                                    Piece::Error(ref e) => return Chunk::Error(e.clone()),
-                                    _ => return Chunk::Error("invalid MDC key".to_owned()),
-                                }
-                            } else {
-                                return Chunk::Error("invalid MDC key".to_owned());
-                            }
-                        }
+                        Some(arg) => match mdc_text(arg, "invalid MDC key") {
+                            Ok(key) => key,
+                            Err(chunk) => return chunk,
+                        },
                         None => return Chunk::Error("missing MDC key".to_owned()),
                     };
 
                     let default = match formatter.args.get(1) {
-                        Some(arg) => {
-                            if let Some(arg) = arg.first() {
-                                match arg {
-                                    Piece::Text(key) => key.to_owned(),
-                                    Piece::Error(ref e) => return Chunk::Error(e.clone()),
-                                    _ => return Chunk::Error("invalid MDC default".to_owned()),
-                                }
-                            } else {
-                                return Chunk::Error("invalid MDC default".to_owned());
-                            }
-                        }
-                        None => "",
+                        Some(arg) => match mdc_text(arg, "invalid MDC default") {
+                            Ok(default) => default,
+                            Err(chunk) => return chunk,
+                        },
+                        None => String::new(),
                     };
 
                     Chunk::Formatted {
-                        chunk: FormattedChunk::Mdc(key.into(), default.into()),
+                        chunk: FormattedChunk::Mdc(key, default),
                         params: parameters,
                     }
                 }
@@ -558,6 +544,23 @@ impl<'a> From<Piece<'a>> for Chunk {
             Piece::Error(err) => Chunk::Error(err),
         }
     }
+}
+
+/// Concatenates the text pieces of an MDC argument (escapes split an
+/// argument into several pieces).
+fn mdc_text(arg: &[Piece], invalid: &str) -> Result<String, Chunk> {
+    if arg.is_empty() {
+        return Err(Chunk::Error(invalid.to_owned()));
+    }
+    let mut text = String::new();
+    for piece in arg {
+        match piece {
+            Piece::Text(t) => text.push_str(t),
+            Piece::Error(ref e) => return Err(Chunk::Error(e.clone())),
+            _ => return Err(Chunk::Error(invalid.to_owned())),
+        }
+    }
+    Ok(text)
 }
 
 fn no_args(arg: &[Vec<Piece>], params: Parameters, chunk: FormattedChunk) -> Chunk {
